@@ -499,6 +499,8 @@ def flush (s : Db) : Db × Out :=
   let dirty := s.flushCandidates
   let s := s.takeAllDirty
   if dirty.isEmpty then
+    -- freed extents become reusable below: the metadata writes that released them are synced first (fix: of F10)
+    let s := if s.pending.isEmpty then s else (s.emit (.flushAsyncAll .regions)).emit (.sync .regions)
     ({ s with holes := promote s.holes s.pending, pending := [] }, .okN 0)
   else
     let (fs, fe) := dirty.foldl (fun (acc : Nat × Nat) (x : Nat × Slot × Option (Nat × Nat)) =>
